@@ -803,6 +803,9 @@ class Frame:
                             return True
                         if isinstance(n, ClassInfo) and n.name == "Cache":
                             return False
+                dc_ = getattr(t, "declared", None)
+                if isinstance(t, Child) and dc_ is not None and any(isinstance(n, ClassInfo) and (dc_ is n or dc_.is_subclass_of(n.qualname)) for n in names):
+                    return True         # the field is declared as an instance of (a subclass of) the class asked for
                 return None
             if isinstance(t, Const):
                 if all(isinstance(n, ClassInfo) for n in names):
@@ -974,6 +977,12 @@ class Frame:
             for kc in self.cls.mro():
                 if attr in kc.annotations:
                     a0 = ast.unparse(kc.annotations[attr]).split("[")[0].split(".")[-1]
+                    ann_ = kc.annotations[attr]
+                    head_ = ann_.value if isinstance(ann_, ast.Subscript) else ann_
+                    if isinstance(head_, (ast.Name, ast.Attribute)):
+                        dc_ = self.repo.resolve_class(kc.module, head_)
+                        if dc_ is not None:
+                            c.declared = dc_        # declared as an instance of this class of the library (``cache: Cache[A]``)
                     if a0 in ("Dict", "Mapping", "MutableMapping", "OrderedDict", "dict", "MappingProxyType"):
                         c.mapping = True     # iterating the attribute itself yields its keys
                     break
@@ -1765,6 +1774,15 @@ class Frame:
                 # ``x or {}`` / ``x or []`` normalise to x; ``None or y`` to y
                 vals = [t for t in ts if not (isinstance(t, Const) and not t.v and not isinstance(t.v, _Sentinel))]
                 vals = [t for t in vals if not (isinstance(t, Sym) and t.head in ("dict{}", "list[]"))] or vals[-1:]
+                # an operand that is an expression / effect / cache object of the library is truthy (R-TB keeps it so): ``or`` stops there
+                cut = None
+                for i_, t in enumerate(vals):
+                    dc_ = t.cls if isinstance(t, New) else getattr(t, "declared", None) if isinstance(t, Child) else None
+                    if dc_ is not None and any(dc_.name == b_ or dc_.is_subclass_of(b_) for b_ in ("Evaluatable", "Effect", "Cache")):
+                        cut = i_
+                        break
+                if cut is not None:
+                    vals = vals[:cut + 1]
                 if not vals:
                     vals = ts[-1:]
                 if len(vals) == 1:
